@@ -787,14 +787,20 @@ def run_check(prop, spec, tier, seed, scratch, workdir):
             # violation whatever the verifier could digest.
             import probes
             found = []
+            tried = set()
             for f in (r.get("extract") or {}).get("functions", []):
                 if f.get("mode") != "verify":
                     continue
                 nm = f["select"].replace("fn ", "").replace("impl ", "").replace(" for ", "_for_").replace(" ", "")
-                if probes.find_probe(nm):
+                test = probes.find_probe(nm)
+                if test and test not in tried:
+                    # one run per probe (several functions of a unit may share one); the violation
+                    # names the function the probe itself blames (`PROBE-FAIL <function> ..`)
+                    tried.add(test)
                     ok, info = probes.run_probe(prop, dict(function=nm), scratch, seed)
                     if ok:
-                        found.append((nm, info))
+                        m = re.search(r"PROBE-FAIL (\S+)", info.get("output", ""))
+                        found.append((m.group(1) if m else nm, info))
             if found:
                 for nm, info in found:
                     obligations.append(dict(name="V:%s" % nm, engine="verus+probe", status="violation", detail=r["undecided"]))
@@ -1032,7 +1038,9 @@ def do_replay(prop, spec, scratch, path):
         return 1 if ok else 0
     if pl.get("kind") == "verus-probe":
         import probes
-        ok, info = probes.run_probe(prop, dict(obligation=pl["obligation"], function=pl["obligation"].split(":")[1]), scratch,
+        # function: recorded by the probe run; else the obligation name without engine prefix and clause
+        fn = (pl.get("probe") or {}).get("function") or re.sub(r"^[A-Z]:", "", pl["obligation"]).rsplit(":", 1)[0]
+        ok, info = probes.run_probe(prop, dict(obligation=pl["obligation"], function=fn), scratch,
                                     int(os.environ.get("VERIF_SEED", "0") or 0))
         print(json.dumps(info, indent=1)[:3000])
         print("REPLAY %s" % ("reproduces the failure on the real code" if ok else "found no failing input on this tree"))
